@@ -50,7 +50,20 @@ class Ref:
                 if tgt is None:
                     return None
                 out += list(self.files[tgt]["raw"])
+            elif st[0] in ("each", "if", "macro"):
+                # constructs that read their body from a recorded token list: the body is the
+                # given statements, n times; lookups inside and after it stay relative to this file
+                saved = self.files[path]
+                self.files[path] = {"stmts": st[2]}
+                sub = self.expand(path, depth)
+                self.files[path] = saved
+                if sub is None and st[1] > 0:
+                    return None
+                out += (sub or []) * st[1]
         return out
+
+
+_uniq = [0]
 
 
 def render(stmts):
@@ -60,9 +73,25 @@ def render(stmts):
             lines.append(f"@db {st[1]}")
         elif st[0] == "include":
             lines.append(f'@include "{st[1]}"')
-        else:
+        elif st[0] == "incbin":
             lines.append(f'@incbin "{st[1]}"')
-    return "\n".join(lines) + "\n"
+        elif st[0] == "each":
+            _uniq[0] += 1
+            lines.append(f"@each TT{_uniq[0]}, {{ {' '.join(str(i + 1) for i in range(st[1]))} }}")
+            lines.append(render(st[2]).rstrip("\n"))
+            lines.append("@endeach")
+        elif st[0] == "if":
+            lines.append(f"@if {st[1]}")
+            lines.append(render(st[2]).rstrip("\n"))
+            lines.append("@endif")
+        else:
+            _uniq[0] += 1
+            me = _uniq[0]
+            lines.append(f"@macro MW{me}, 0")
+            lines.append(render(st[2]).rstrip("\n"))
+            lines.append("@endmacro")
+            lines += [f"MW{me}"] * st[1]
+    return "\n".join(l for l in lines if l) + "\n"
 
 
 def run(tier, seed):
@@ -91,6 +120,7 @@ def run(tier, seed):
     # (2) include graphs of depth <= 3 with relative names crossing directories; after an included
     #     file ends, lookups continue relative to the including file
     names = ["b.inc", "sub/c.inc", "../p/d.inc", "../lib1/e.inc"]
+    feats = {}
     for _ in range(600 if tier == "quick" else 6000):
         search = rng.choice(search_variants)
         files = {}
@@ -115,6 +145,20 @@ def run(tier, seed):
                     for d in rng.sample(DIRS, rng.randint(0, 2)):
                         files.setdefault(norm(posixpath.join(d, nm)), {"raw": bytes([fresh(), fresh()])})
                 stmts.append(("db", fresh()))
+                # wrap what was generated so far in a construct that replays recorded tokens
+                # (@each n times, @if, a macro invoked n times), or put a plain one in between
+                r = rng.random()
+                if r < 0.2:
+                    # (a macro is only defined in the root file: any other file may be read twice)
+                    k = rng.choice(["each", "if", "macro"] if depth == 0 else ["each", "if"])
+                    n = rng.choice([0, 1, 1, 2]) if k != "if" else rng.choice([0, 1, 1])
+                    tail = stmts[1:]
+                    stmts[1:] = [(k, n, tail)]
+                    feats[k + "_around_include"] = feats.get(k + "_around_include", 0) + 1
+                elif r < 0.45:
+                    k = rng.choice(["each", "macro"] if depth == 0 else ["each"])
+                    stmts.append((k, rng.choice([1, 2, 3]), [("db", fresh())]))
+                    feats[k + "_between_includes"] = feats.get(k + "_between_includes", 0) + 1
             return stmts
 
         files[root] = {"stmts": make(root, 0)}
@@ -159,8 +203,9 @@ def run(tier, seed):
     chk.samples += [{"files": sorted(cases[k][0]), "search": cases[k][1], "cwd": cases[k][2], "root": cases[k][3]} for k in (3, n_exh + 5, len(cases) - 1)]
     chk.oblige("correspondence: implementation = Model on every directory tree / include graph", not chk.disagreements,
                json.dumps(chk.disagreements[:2])[:700])
-    chk.coverage.update({"exhaustive": True,
-                         "exhaustive_note": f"one relative name present in EVERY subset of the {len(DIRS)} candidate directories x {len(search_variants)} search-path lists (absolute, relative, 0..3 entries), root file outside the working directory: {n_exh} trees; plus seeded include graphs of depth <= 3 with relative names crossing directories"})
+    chk.oblige("every generator feature was exercised", len(feats) >= 5 and all(feats.values()), str(feats))
+    chk.coverage.update({"exhaustive": True, "features": feats,
+                         "exhaustive_note": f"one relative name present in EVERY subset of the {len(DIRS)} candidate directories x {len(search_variants)} search-path lists (absolute, relative, 0..3 entries), root file outside the working directory: {n_exh} trees; plus seeded include graphs of depth <= 3 with relative names crossing directories, with @each / @if / macro bodies around and between the includes"})
     chk.assumptions = ["path normalisation (path-absolutize crate) is modelled as lexical normalisation and validated here; the in-memory FileSystem of the harness stands in for the operating system (the real-file-system leg runs under C15)"]
     return chk.finish(
         checker_cmd="cd /verif/lean && lake build Az65.Thm.C12 && #print axioms audit",
